@@ -13,7 +13,7 @@ def run(ctx):
     ctx.cov["rule"] = (
         "files: random trees of up to 6 files (depth 0..5, 0..3 lines, items: characters, \\input of a deeper "
         "file anywhere in a line, \\endinput anywhere, empty lines, with/without final newline, occasional cycles "
-        "that hit the input-level limit) plus chains of depth 5/50/90 (must work) and 150 (must be a located "
+        "that hit the input-level limit) plus chains of depth 5/50/90/99 (must work) and 150 (must be a located "
         "error), run with an in-memory file system and decided by TLC against textual substitution; streams: "
         "every history of \\openin/\\read/\\ifeof/\\closein up to the stated length over 2 streams (TeX streams 0 "
         "and 15) and 3 read files + a missing file is run as one program and every observation (tokens of each "
@@ -61,7 +61,7 @@ def run(ctx):
         "file names are letters only; \\input's name ends at a space or the end of the line",
         "a \\read on a closed stream falls back to the terminal; the harness's terminal is empty, so the spec expects "
         "a located error there (TeX would prompt)",
-        "exact boundary of the input-level limit is not probed: 90 nested \\input must work, 150 must fail",
+        "the input-level limit: 99 nested \\input (100 files open, the documented limit) must work, 150 must fail; 100 nested is where the readings of the limit part and is not probed",
         "\\read results are observed through the expansion hook when the defined macro is expanded",
     ]
 
